@@ -38,7 +38,11 @@ CONSTANTS Keys,         \* user keys, a set of small integers
           MaxParts,     \* parts alive at the same time
           AllowDrop,    \* BOOLEAN: merges with a rejecting keep predicate are enabled
           BatchSizes,   \* MaxBatchSize values, 0 = unlimited
-          FullMenu      \* BOOLEAN: the Query action ranges over every query (else over a small menu)
+          FullMenu,     \* BOOLEAN: the Query action ranges over every query (else over a small menu)
+          BlockCap,     \* entries per block (the code: maxBlockLength = 8192)
+          ScanBatch,    \* blocks per scan batch when MaxBatchSize = 0 (the code: blockScannerBatchSize = 32)
+          Bounded       \* BOOLEAN: emission between scan batches stops at the next block's bound (the design);
+                        \* FALSE = every scan batch is drained completely (what query.go did before the repair)
 
 VARIABLES parts,     \* set of [id, kind, ents]
           nextId,    \* next part id (the trace table's curPartID)
@@ -206,6 +210,59 @@ StreamingEqualsSync == \A q \in VQ : \A mb \in BatchSizes : BatchingOK(Stream(q)
 QueryDesign ==
   \A q \in VQ : LET st == Stream(q)
                 IN AnswerOK(st, q) /\ RunsOK(st, q) /\ \A mb \in BatchSizes : BatchingOK(st, q, mb)
+
+---------------------------------------------------------------------------
+\* ---- the scan as implemented (block_scanner.go, iter.go, query.go) ----------------------------------
+\* A part stores, per series, its key-ordered run cut into blocks.  A query selects the blocks of its
+\* series that overlap the key range, visits them ordered by minKey (ASC) or by maxKey (DESC), and loads
+\* them into the merge heap in scan batches of MaxBatchSize blocks (ScanBatch when it is 0).  After every
+\* scan batch the heap is drained up to the bound of the next unscanned block, completely after the last.
+\* round(e) is the scan batch after which entry e is emitted; the answer is the entries by (round, key).
+SeriesRun(p, s) == SetToSortSeq({ e \in p.ents : e.s = s }, LAMBDA a, b : LessIn(a, b, TRUE))
+BlocksOf(p, s) == LET c == Cut(SeriesRun(p, s), BlockCap)
+                  IN { [part |-> p.id, s |-> s, n |-> j, ents |-> Elems(c[j])] : j \in DOMAIN c }
+AllBlocks == UNION { BlocksOf(p, s) : p \in parts, s \in Series }
+MinK(b) == Min({ e.k : e \in b.ents })
+MaxK(b) == Max({ e.k : e \in b.ents })
+Selected(q) == { b \in AllBlocks : b.s \in q.series /\ MaxK(b) >= q.lo /\ MinK(b) <= q.hi }
+Tie(a, b) == \/ a.s < b.s
+             \/ a.s = b.s /\ a.part < b.part
+             \/ a.s = b.s /\ a.part = b.part /\ a.n < b.n
+ScanOrder(q) ==
+  SetToSortSeq(Selected(q), LAMBDA a, b :
+     IF q.asc THEN \/ MinK(a) < MinK(b)
+                   \/ MinK(a) = MinK(b) /\ MaxK(a) < MaxK(b)
+                   \/ MinK(a) = MinK(b) /\ MaxK(a) = MaxK(b) /\ Tie(a, b)
+              ELSE \/ MaxK(a) > MaxK(b)
+                   \/ MaxK(a) = MaxK(b) /\ MinK(a) > MinK(b)
+                   \/ MaxK(a) = MaxK(b) /\ MinK(a) = MinK(b) /\ Tie(b, a))
+
+Emitted(q, mb) ==       \* [e |-> round] for the matching entries
+  LET bl == ScanOrder(q)
+      thr == IF mb > 0 THEN mb ELSE ScanBatch
+      nb == (Len(bl) + thr - 1) \div thr
+      bound(j) == IF q.asc THEN MinK(bl[j * thr + 1]) ELSE MaxK(bl[j * thr + 1])      \* j < nb
+      free(k, j) == j = nb \/ (IF q.asc THEN k <= bound(j) ELSE k >= bound(j))
+      loaded(e) == ((CHOOSE i \in DOMAIN bl : e \in bl[i].ents) - 1) \div thr + 1
+  IN [e \in Matching(q) |-> IF Bounded THEN Min({ j \in loaded(e)..nb : free(e.k, j) }) ELSE loaded(e)]
+
+EmitSeq(q, mb) ==
+  LET r == Emitted(q, mb)
+  IN SetToSortSeq(DOMAIN r, LAMBDA a, b : \/ r[a] < r[b]
+                                          \/ r[a] = r[b] /\ (IF q.asc THEN a.k < b.k ELSE a.k > b.k)
+                                          \/ r[a] = r[b] /\ a.k = b.k /\ a.t < b.t)
+\* processSyncLoop stops scanning after the round in which MaxBatchSize entries have been collected
+SyncEmit(q, mb) ==
+  LET r == Emitted(q, mb)
+      sq == EmitSeq(q, mb)
+      enough == { j \in { r[e] : e \in DOMAIN r } : Cardinality({ e \in DOMAIN r : r[e] <= j }) >= mb }
+  IN IF mb = 0 \/ enough = {} THEN sq ELSE SelectSeq(sq, LAMBDA e : r[e] <= Min(enough))
+
+\* C09 (sidx) for the scan as implemented: what is emitted batch after batch is THE ordered answer
+ScanEmitsInOrder ==
+  \A q \in VQ : \A mb \in BatchSizes :
+     /\ IsAnswer(EmitSeq(q, mb), q)
+     /\ IF mb = 0 THEN IsAnswer(SyncEmit(q, mb), q) ELSE IsTopN(SyncEmit(q, mb), q, mb)
 
 \* C03 (sidx): maintenance is invisible
 FlushInvisible == [][last'.op = "flush" => Contents' = Contents]_vars
